@@ -37,6 +37,11 @@ def accessor_view(ro):
 
 def run_behaviour(bid, beh, seed, observe=None, expose=None):
     g = Gamma("%s|%s" % (seed, bid))
+    from .render import ID_STYLES, id_style_map, restyle
+    style = g.rng("idstyle").choice(ID_STYLES)
+    if style != "plain":              # one id style for the whole behaviour (see render.py)
+        f = id_style_map(style)
+        beh = restyle(beh, f)
     table = {}
     objs = {}
     events = []
